@@ -29,8 +29,8 @@ def reply {β} (r : Except String β) (f : β → String) : String :=
   | .ok v => f v
 
 /-- slack of the two `np.isclose` decisions of `Polygon.__init__` (positive = passes):
-    normal test `tol − ||c·n| − 1|` (0 if no normal supplied) and the coplanarity loop
-    `min_v (tol − |n·v − d|)` with the normal the constructor would use. -/
+    normal test `tol − ||c·n| − 1|` (0 if no normal supplied) and the coplanarity test
+    `min_v (ptol·extent − |(v − v0)·n|)` (744f807) with the normal the constructor would use. -/
 def slacks {α} [Scalar α] (ncols : Nat) (rows : List (V3 α)) (normal : Option (V3 α)) (ptol : α) : α × α :=
   let verts := rows.map (pad ncols)
   let cc := cornerCross verts
@@ -41,9 +41,10 @@ def slacks {α} [Scalar α] (ncols : Nat) (rows : List (V3 α)) (normal : Option
       let nn := V3.sdiv nv (V3.norm nv)
       (nn, (atolDefault + rtolDefault * Scalar.abs (Scalar.lit 1))
             - Scalar.abs (Scalar.abs (V3.dot computed nn) - Scalar.lit 1))
-  let d := V3.dot n (verts.getD 0 V3.zero)
-  let tol := atolDefault + ptol * Scalar.abs d
-  let s2 := verts.foldl (fun m v => Scalar.min m (tol - Scalar.abs (V3.dot n v - d))) tol
+  -- 744f807: |(v − v0)·n| <= ptol * extent
+  let v0 := verts.getD 0 V3.zero
+  let tol := ptol * planarExtent verts
+  let s2 := verts.foldl (fun m v => Scalar.min m (tol - Scalar.abs (V3.dot (v - v0) n))) tol
   (s1, s2)
 
 /-- driver ops of C15. `none` = unknown op. -/
